@@ -763,6 +763,24 @@ def model_round2(ctx, rng, nprng, quick):
                     return f"sum[{nm}]: model={parts[k][:200]} impl={r_sum[nm].reshape(-1).tolist()}"
             return None
         cor.add(f"pcc {N} {tm} {cr} {enc_ints(A.reshape(-1))}", compare)
+        # direct specification in Fraction arithmetic (independent of the model)
+        for i in range(N):
+            for j in range(N):
+                f = [sum(Fraction(int(a)) * Fraction(int(b)) for a, b in zip(A[tm, i], A[t, j])) / cr
+                     for t in range(2 * tm + 1)]
+                top = max(abs(x) for x in f)
+                first = min(t for t in range(2 * tm + 1) if abs(f[t]) == top) if top > 0 else 0
+                exp_sum = (float(sum(abs(x) for x in f[tm:])), float(sum(abs(x) for x in f[:tm + 1])))
+                if int(round(float(r_max[1][i, j]))) != first - tm \
+                        or Fraction(float(r_max[0][i, j])).limit_denominator(cr) != top \
+                        or abs(r_sum[0][i, j] - exp_sum[0]) > 1e-5 or abs(r_sum[1][i, j] - exp_sum[1]) > 1e-5:
+                    ctx.fail({"kind": "pure_python", "method": "_calculate_cc", "check": "modes_spec"},
+                             "pure-Python 'max' is not (max |c_t|, first window attaining it - tau_max) or 'sum' "
+                             "is not the sums of |c_t| over t >= tau_max / t <= tau_max",
+                             {"array": lst(A), "tau_max": tm, "i": i, "j": j, "lagfunc": [str(x) for x in f],
+                              "expected_max": [str(top), first - tm], "expected_sum": list(exp_sum),
+                              "observed_max": [float(r_max[0][i, j]), float(r_max[1][i, j])],
+                              "observed_sum": [float(r_sum[0][i, j]), float(r_sum[1][i, j])]})
 
     # ---- (2) pure-Python cross_correlation from the data: pureXcorrSq ----------------------
     for c in range(60 if quick else 500):
